@@ -1,5 +1,5 @@
 #!/usr/bin/env python3
-"""C04 -- page tree order, inheritance, rotation/box normalisation, page selection (DESIGN.md 3.C04)."""
+"""C04 -- page tree order, inheritance, rotation/box normalisation, page selection (DESIGN.md section 4, C04)."""
 import io
 import os
 import sys
@@ -44,7 +44,7 @@ MANIFEST_ENTRY = {
             "(0,0,W,H) resp. (0,0,H,W) with the lower-left corner going where a clockwise turn puts it.",
     "note": "Trusted: Coq kernel, translator, hand model of the DFS/selection tied by differential runs on generated PDFs, "
             "harness PDF writer. Recursion limit and object loading outside the model.",
-    "design_ref": "DESIGN.md 3.C04",
+    "design_ref": "DESIGN.md section 4, C04",
 }
 
 ATTR_KEYS = ["Resources", "MediaBox", "CropBox", "Rotate"]
